@@ -237,11 +237,13 @@ class TransactionManager(Elaboratable):
         """
 
         def calls_nonexclusive(trans1: TBody, trans2: TBody, method: MBody):
+            # Both calls going through the same nonexclusive method reach `method` at most once:
+            # the call tree of every method is validated separately.
             return all(
-                common_ancestors[-1].nonexclusive or call_paths_exclusive(call1.call_path, call2.call_path)
+                any(ancestor.nonexclusive for ancestor in call1.ancestors if ancestor in call2.ancestors)
+                or call_paths_exclusive(call1.call_path, call2.call_path)
                 for call1 in method_map.info_by_call[(trans1, method)]
                 for call2 in method_map.info_by_call[(trans2, method)]
-                if (common_ancestors := longest_common_prefix(call1.ancestors, call2.ancestors))
             )
 
         cgr: TransactionGraph = {}  # Conflict graph
